@@ -190,3 +190,16 @@ Theorem generated_split_table_code_chunks :
   ltac:(let t := type of split_table_chunks in exact t).
 Proof. exact split_table_chunks. Qed.
 Print Assumptions generated_split_table_code_chunks.
+
+(* the relation evaluated on the implementation for Prefix / Position / Suffix filter_tables across
+   schedules and presentations: both results list a REQUIRED pair or neither does; `required` is the
+   guard of complete_spec, so two results related this way are complete together or not at all *)
+From SSJ Require Import VariantSpec VariantFacts.
+Theorem C10_same_required_transfers_completeness :
+  forall c o0 ov, same_required_spec c o0 ov = true -> complete_spec c o0 = complete_spec c ov.
+Proof. exact same_required_complete. Qed.
+Print Assumptions C10_same_required_transfers_completeness.
+Theorem C10_required_is_the_guard_of_complete_spec :
+  forall c obs, lists_required c obs = complete_spec c obs.
+Proof. exact lists_required_is_complete. Qed.
+Print Assumptions C10_required_is_the_guard_of_complete_spec.
